@@ -200,6 +200,32 @@ impl Property for C17 {
             (CombinedKey::Secp256k1(_), false) | (CombinedKey::Ed25519(_), true) => {}
             _ => return Err("imported key has the wrong variant".into()),
         }
+        // an imported secp256k1 key taking over a record that was built by an ed25519 CombinedKey: the
+        // record then carries both entries and CombinedKey verifies against the (valid) secp256k1 one
+        if !kc.ed {
+            let r = guarded(|| -> Result<(), String> {
+                let ed = CombinedKey::Ed25519(ed25519_dalek::SigningKey::from_bytes(&[7u8; 32]));
+                let mut e = Enr::<CombinedKey>::builder().udp4(9).build(&ed).map_err(|e| format!("build: {e:?}"))?;
+                e.set_tcp4(kc.ports.first().copied().unwrap_or(1), &key).map_err(|e| format!("update of an ed25519-built record with the imported secp256k1 key failed: {e:?}"))?;
+                let pairs: Vec<(Vec<u8>, Vec<u8>)> = e.iter().map(|(k, v)| (k.clone(), v.to_vec())).collect();
+                if record::verify_fields(Scheme::Secp, &want_pk, e.seq(), &pairs, e.signature()) != Verdict::Valid {
+                    return Err("record taken over with the imported key does not verify under its public key (independent verifier)".into());
+                }
+                if !e.verify() {
+                    return Err("record taken over with the imported secp256k1 key: verify() false".into());
+                }
+                if e.public_key().encode() != want_pk {
+                    return Err("record taken over with the imported secp256k1 key: public_key() is not the imported key's".into());
+                }
+                let bytes = alloy_rlp::encode(&e);
+                match record::ref_decode_exact(&bytes, KeyType::Combined) {
+                    RefOutcome::Accept(r) if r.pk == want_pk => Ok(()),
+                    o => Err(format!("reference decoder does not accept the taken-over record under the imported key: {o:?}")),
+                }
+            })
+            .map_err(|p| format!("take-over panicked: {p}"))?;
+            r?;
+        }
         // records signed with the imported key verify under that public key
         let r = guarded(|| -> Result<(), String> {
             let mut e = Enr::<CombinedKey>::builder()
